@@ -28,7 +28,17 @@ def r_angle(v):
     return f"<{type(v).__name__}#{v.idx}>"
 
 
-RFUNCS = {"none": None, "idx": r_idx, "angle": r_angle}
+def r_padded(v):
+    """column-aligned labels: end in spaces"""
+    return f"n{v.idx}".ljust(5)
+
+
+def r_punct(v):
+    """labels ending in the separator's own characters, or empty"""
+    return ["", "a,", "b, ", " ", "c -> d", ",", "e"][v.idx % 7]
+
+
+RFUNCS = {"none": None, "idx": r_idx, "angle": r_angle, "padded": r_padded, "punct": r_punct}
 
 
 def s_idx(v):
@@ -151,7 +161,7 @@ def run(ctx):
         if k in (4, 200) and ctx.shard == 0:
             ctx.sample({"spec": spec, "rfunc": list(RFUNCS), "sort": list(SORTS)})
     ctx.assumptions += ["graphs hold only directed/undirected edges (basic_render uses default neighbors())",
-                        "renderings contain no newline; a line for a vertex without neighbours may end in '->' or '-> '"]
+                        "renderings contain no newline (they may be empty, end in spaces/commas or contain the separators); a line for a vertex without neighbours may end in '->' or '-> '"]
 
 
 def replay(ctx, case):
